@@ -226,7 +226,10 @@ def ref_read(fmt, path):
     return V, E, F, C
 
 
-def ref_write(fmt, path, V, E, F, C):
+OFF_COLOURS = ["", " 0 1 2", " 0.5 0.25 1.0 1.0", " 3"]     # optional per-face colour of the OFF format: none, RGB, RGBA, colormap index
+
+
+def ref_write(fmt, path, V, E, F, C, variant=0):
     """independent writer (numerals given as text)"""
     with open(path, "w") as f:
         if fmt == "obj":
@@ -241,7 +244,7 @@ def ref_write(fmt, path, V, E, F, C):
             for v in V:
                 f.write("%s %s %s\n" % tuple(v))
             for fc in F:
-                f.write("%d %s\n" % (len(fc), " ".join(str(x) for x in fc)))
+                f.write("%d %s%s\n" % (len(fc), " ".join(str(x) for x in fc), OFF_COLOURS[variant]))
         elif fmt == "mesh":
             f.write("MeshVersionFormatted 1\nDimension 3\nVertices\n%d\n" % len(V))
             for v in V:
@@ -391,10 +394,15 @@ def foreign(shapes, formats):
         if fmt in ("off", "obj", "mesh") and C and fmt != "mesh":
             sx.assume(False)
         tag = " [%s written by a reference .%s writer]" % (shape, fmt)
+        variant = 0
+        if fmt == "off":
+            variant = sx.choice("off_face_colour", len(OFF_COLOURS))
+            if variant:
+                tag = tag[:-1] + ", faces carrying the optional colour '%s']" % OFF_COLOURS[variant].strip()
         tmp = tempfile.mkdtemp(prefix="vf-c04-", dir="/var/tmp")
         try:
             path = os.path.join(tmp, "r." + fmt)
-            ref_write(fmt, path, text, E, F, C)
+            ref_write(fmt, path, text, E, F, C, variant)
             with contextlib.ExitStack() as st:
                 _rebind_importers(sx, st)
                 try:
